@@ -184,14 +184,14 @@ theorem estabAuthCap_wire (sent0 : Sent) (p1 : σ) (c0 : Client) :
 
 include rel in
 theorem establish_wire (p0 : σ) (c0 : Client) :
-    Wire π lostAt md5 b p0 [] (establish md5 P cfg p0 c0) := by
+    Wire π lostAt md5 b p0 [] (handshake md5 P cfg p0 c0) := by
   have hd : pingDatagram rmcpInitialSeq = .ok pingD := by decide
   obtain ⟨w, hf, he⟩ := relay_one rel p0 pingD
   have hp : ∃ o, ping P p0 = ((P p0 pingD).1, [pingD], o) := by
     simp only [ping, hd]
     exact ⟨_, rfl⟩
   obtain ⟨o, hp⟩ := hp
-  simp only [establish, hp]
+  simp only [handshake, hp]
   cases o with
   | ok u => exact wire_cont p0 _ [] .ping [pingD] _ w hf he (estabAuthCap_wire rel cfg _ _ _)
   | _ => exact wire_stop p0 _ _ [] .ping [pingD] _ w hf he
@@ -244,20 +244,20 @@ sent — whatever the configuration, whatever the outcome. -/
 theorem lifecycle_wire (n : Nat) (p0 : σ) (c0 : Client) :
     ∃ w, Flagged lostAt w ((lifecycle md5 P cfg n p0 c0).sent.map Prod.snd) ∧
       π (lifecycle md5 P cfg n p0 c0).peer = runWire md5 b (π p0) w := by
-  obtain ⟨n1, w1, e1, f1, g1⟩ := establish_wire rel cfg p0 c0
+  obtain ⟨n1, w1, e1, f1, g1⟩ := establish_wire rel cfg p0 (resetSess cfg c0)
   simp only [List.nil_append] at e1
-  simp only [lifecycle]
-  cases ho : (establish md5 P cfg p0 c0).outcome with
+  simp only [lifecycle, establish]
+  cases ho : (handshake md5 P cfg p0 (resetSess cfg c0)).outcome with
   | ok pl =>
     simp only
-    obtain ⟨n2, w2, e2, f2, g2⟩ := requestN_wire rel cfg n (establish md5 P cfg p0 c0).peer (establish md5 P cfg p0 c0).client
+    obtain ⟨n2, w2, e2, f2, g2⟩ := requestN_wire rel cfg n (handshake md5 P cfg p0 (resetSess cfg c0)).peer (handshake md5 P cfg p0 (resetSess cfg c0)).client
     simp only [List.nil_append] at e2
-    cases ho2 : (requestN md5 P cfg n (establish md5 P cfg p0 c0).peer (establish md5 P cfg p0 c0).client).outcome with
+    cases ho2 : (requestN md5 P cfg n (handshake md5 P cfg p0 (resetSess cfg c0)).peer (handshake md5 P cfg p0 (resetSess cfg c0)).client).outcome with
     | ok pl2 =>
       simp only
       obtain ⟨n3, w3, e3, f3, g3⟩ := close_wire rel cfg
-        (requestN md5 P cfg n (establish md5 P cfg p0 c0).peer (establish md5 P cfg p0 c0).client).peer
-        (requestN md5 P cfg n (establish md5 P cfg p0 c0).peer (establish md5 P cfg p0 c0).client).client
+        (requestN md5 P cfg n (handshake md5 P cfg p0 (resetSess cfg c0)).peer (handshake md5 P cfg p0 (resetSess cfg c0)).client).peer
+        (requestN md5 P cfg n (handshake md5 P cfg p0 (resetSess cfg c0)).peer (handshake md5 P cfg p0 (resetSess cfg c0)).client).client
       simp only [List.nil_append] at e3
       refine ⟨w1 ++ w2 ++ w3, ?_, by rw [g3, g2, g1, runWire_append, runWire_append]⟩
       rw [e1, e2, e3, List.map_append, List.map_append]
